@@ -574,7 +574,14 @@ def _chop(frame: Subframe, time: sc.Variable, close_to_open: bool) -> Subframe |
         if inside_i != inside_j:
             # Intersection
             t = (time - frame.time[i]) / (frame.time[j] - frame.time[i])
-            v = (1 - t) * frame.wavelength[i] + t * frame.wavelength[j]
+            wav_i = frame.wavelength[i]
+            wav_j = frame.wavelength[j]
+            v = (1 - t) * wav_i + t * wav_j
+            # Rounding must not push the result outside the range spanned by the
+            # edge; in particular (1 - t) * a + t * a is not always a. The exact
+            # comparisons in Subframe.is_regular rely on this.
+            lo, hi = (wav_i, wav_j) if wav_i <= wav_j else (wav_j, wav_i)
+            v = lo if v < lo else hi if v > hi else v
             output.append((time, v))
     if not output:
         return None
